@@ -456,9 +456,10 @@ class Case:
             self.expect_sizes[f"f{i}"] = len(raw)
             pos += len(raw)
         high = start
+        overlap = False
         for p_, ln in self.raw_at:
-            if p_ < high:
-                return  # overlays / backward offsets: the reference image is not defined per overlay, outside this fold
+            if p_ < high and ln:
+                overlap = True
             if ln:
                 high = max(high, p_ + ln)
         for u in units:
@@ -467,6 +468,33 @@ class Case:
                 val |= v << (used if endian == "<" else u["total"] - used - bits)
             ensure(u["at"] + u["size"])
             image[u["at"]:u["at"] + u["size"]] = val.to_bytes(u["size"], order)
+        if overlap:
+            # explicit offsets that overlay an earlier field or move backwards: every field is what the final image holds at its own position
+            if any(k["size"] is None or k["fam"] in ("Wchar", "WcharArray") or "f32" in n for n, k in zip(seq, ks)):
+                return  # a clobbered length byte / surrogate / NaN would need its own reference: outside this fold
+            ui = 0
+            pos2 = iter(self.raw_at)
+            unit = None
+            for i, (n, k) in enumerate(zip(seq, ks)):
+                base = base_of(n)
+                if k.get("bits"):
+                    storage = k.get("storage") or k.get("enum_of") or base
+                    if unit is None or unit["type"] != storage or unit["remaining2"] == 0:
+                        unit = units[ui]
+                        ui += 1
+                        next(pos2)
+                        unit["remaining2"] = unit["total"]
+                        unit["used2"] = 0
+                        unit["value2"] = int.from_bytes(image[unit["at"]:unit["at"] + unit["size"]], order)
+                    off_ = unit["used2"]
+                    v = (unit["value2"] >> (off_ if endian == "<" else unit["total"] - off_ - k["bits"])) & ((1 << k["bits"]) - 1)
+                    unit["used2"] += k["bits"]
+                    unit["remaining2"] -= k["bits"]
+                    self.expect_vals[f"f{i}"] = ("bits", base if k["fam"] in ("Enum", "Flag") else None, v)
+                    continue
+                unit = None
+                p_, ln = next(pos2)
+                self.expect_vals[f"f{i}"] = decode(base, bytes(image[p_:p_ + ln]), endian, table)
         self.data_end = high
         end = pos
         if align and self.alignment:
@@ -750,6 +778,10 @@ def _fold_compiled(repo: Repo, max_len: int, only: list[tuple[str, ...]] | None,
                                  lambda c: None)
         seqs = only if only is not None else sequences(max_len)
         jobs = jobs if jobs is not None else int(os.environ.get("CSA_FOLD_JOBS", "0") or 0) or min(16, os.cpu_count() or 1)
+        import multiprocessing as _mp
+
+        if _mp.current_process().daemon:
+            jobs = 1  # inside a worker of the self-test pool: no nested pools
         if jobs <= 1 or len(seqs) < 64:
             parts = [_fold_chunk(h, env, gen_types, seqs)]
         else:
